@@ -84,6 +84,13 @@ class Misorientation(Rotation):
             raise ValueError("Value must be a 2-tuple of Symmetry objects.")
         self._symmetry = tuple(value)
 
+    @property
+    def unit(self) -> Misorientation:
+        """Return the unit misorientations."""
+        M = super().unit
+        M._symmetry = self._symmetry
+        return M
+
     # ------------------------ Dunder methods ------------------------ #
 
     def __eq__(self, other: Union[Any, Misorientation]) -> bool:
